@@ -94,23 +94,47 @@ def check(ctx):
     if r is None:
         ctx.lost('C10.2', 'Envelope::recipients')
     else:
-        rt = strip_sites(TermBuilder(F, r).return_term())
-        src = None
-        for x in walk(rt):
-            if isinstance(x, tuple) and x and x[0] == 'call' and call_name(x) == 'assertions_with_predicate':
-                src = x
-        ext = False
-        for cl in F.closures_of(r):
-            crt = TermBuilder(F, cl).return_term()
-            for x in walk(crt):
-                if isinstance(x, tuple) and x and x[0] == 'call' and call_name(x) == 'extract_subject':
-                    c = CALLEES.get(x[1])
-                    if c and any('SealedMessage' in a for a in c.args):
-                        ext = True
-        if src is not None and src[2][0] == P1 and const_name(src[2][1]) == 'HAS_RECIPIENT' and ext:
-            ctx.ok('C10.2', ctx.site(r), 'reader: objects of the \'hasRecipient\' assertions of self extracted as SealedMessage')
+        rtb = TermBuilder(F, r)
+        rds = [x for x in accept_sites(r, rtb)]
+        sel = None
+        for bi, si, t in rds:
+            inner = detry(t)
+            inner = inner[3][0] if inner[0] == 'agg' and inner[2] == 'Ok' and inner[3] else inner
+            s_ = selection(F, r, rtb, inner, use_block=bi)
+            if s_ is not None:
+                sel = s_
+        good = False
+        why = fmt(strip_sites(rtb.return_term()))[:400]
+        if sel is not None:
+            src = m_call(sel.coll, name='assertions_with_predicate', self_suffix='Envelope')
+            E = sel.elem
+            def obj_of_E(x):
+                """as_object(subject(E)) (unwrapped)"""
+                u = m_call(x, name='unwrap') or m_call(x, name='expect')
+                x = u[0] if u else x
+                ao = m_call(x, name='as_object', self_suffix='Envelope')
+                sj = m_call(ao[0], name='subject', self_suffix='Envelope') if ao else None
+                return sj is not None and (sj[0] == E or sj[0] == ('elem', sel.coll))
+            ext = m_call(sel.value, name='extract_subject', self_suffix='Envelope')
+            c = CALLEES.get(sel.value[1]) if ext is not None else None
+            sealed = c is not None and any('SealedMessage' in a for a in c.args)
+            if src is None or src[0] != P1 or const_name(src[1]) != 'HAS_RECIPIENT':
+                why = 'selection ranges over %s, not the \'hasRecipient\' assertions of self' % fmt(sel.coll)
+            elif ext is None or not sealed or not obj_of_E(ext[0]):
+                why = 'kept elements are not read as extract_subject::<SealedMessage>(object of the assertion): %s' % fmt(sel.value)
+            else:
+                # obscured recipient objects are skipped, every other one is read (a table over is_obscured(object))
+                obs = sel.atoms(lambda x: x[0] == 'call' and call_name(x) == 'is_obscured' and obj_of_E(x[2][0]))
+                if len(obs) == 1 and sel.keep_values({obs[0]: True}) == {False} and sel.keep_values({obs[0]: False}) == {True}:
+                    good = True
+                elif not obs and sel.keep_values({}) == {True}:
+                    good = True
+                else:
+                    why = 'recipient objects are not kept exactly when they are not obscured (atoms %s)' % [fmt(o) for o in obs]
+        if good:
+            ctx.ok('C10.2', ctx.site(r), 'reader: objects of the \'hasRecipient\' assertions of self that are not obscured, each extracted as SealedMessage')
         else:
-            ctx.fail('C10.2', ctx.site(r), 'recipients() does not read SealedMessage objects of \'hasRecipient\' assertions: %s' % fmt(rt), key='C10.2|reader')
+            ctx.fail('C10.2', ctx.site(r), 'recipients() does not read SealedMessage objects of \'hasRecipient\' assertions: %s' % why, key='C10.2|reader')
     # ---- C10.3
     d = F.method1('Envelope', 'decrypt_subject_to_recipient')
     helper = None
